@@ -4,6 +4,7 @@ import (
 	"fmt"
 	"reflect"
 	"regexp"
+	"sort"
 
 	"verif/harness/sx"
 )
@@ -229,7 +230,100 @@ func (g *xgen) decorate(ps []propD) {
 		if r.Chance(3) {
 			p.disabled = true
 		}
+		// D86: treat-empty-as-default AND a non-empty declared default on a scalar / list property, now and then
+		if d := nonEmptyDefaultFor(r, p.t); d != nil && r.Chance(6) {
+			p.emptyIsDefault, p.dflt = true, d
+		}
 	}
+}
+
+// nonEmptyDefaultFor: a decodable default that is not the empty value of the (scalar / list) type; nil for other types.
+func nonEmptyDefaultFor(r *Rng, t *sx.Node) *string {
+	if !t.IsList() {
+		if t.Atom == "bool" {
+			return sp("true")
+		}
+		return nil
+	}
+	switch t.Head() {
+	case "int":
+		return sp(pick(r, []string{"5", "1", "\"7\""}))
+	case "enum_int":
+		return sp("1")
+	case "float":
+		return sp(pick(r, []string{"5.5", "1"}))
+	case "string":
+		return sp(pick(r, []string{"\"abc\"", "\"x\""}))
+	case "enum_str":
+		return sp("\"x\"")
+	case "list":
+		switch t.List[1].Head() {
+		case "string", "enum_str":
+			return sp("[\"x\"]")
+		case "int":
+			return sp("[1]")
+		}
+	}
+	return nil
+}
+
+// emptyRawFor: the raw EMPTY value of a scalar / list type (0, "", false, empty list); nil for other types.
+func emptyRawFor(t *sx.Node) *sx.Node {
+	if !t.IsList() {
+		if t.Atom == "bool" {
+			return vB(false)
+		}
+		return nil
+	}
+	switch t.Head() {
+	case "int", "enum_int":
+		return vI("i64", 0)
+	case "float":
+		return vF("f64", 0)
+	case "string", "enum_str":
+		return vS("")
+	case "list":
+		return vSl(tAnySlice)
+	}
+	return nil
+}
+
+// withEmptyDefaults: the raw map v with every treat-empty-as-default property of the object that declares a default
+// supplied EMPTY (nil: the object has no such property, or v is not a map).
+func withEmptyDefaults(obj, v *sx.Node) *sx.Node {
+	if obj == nil || !obj.IsList() || (obj.Head() != "object" && obj.Head() != "xobject") || !v.IsList() || v.Head() != "m" {
+		return nil
+	}
+	set := map[string]*sx.Node{}
+	for _, p := range obj.List[3].List {
+		pn := p.List[1]
+		if pn.List[9].Atom == "1" && !isNone(pn.List[7]) {
+			if e := emptyRawFor(pn.List[1]); e != nil {
+				set[p.List[0].Str] = e
+			}
+		}
+	}
+	if len(set) == 0 {
+		return nil
+	}
+	out := sx.L(v.List[:3]...)
+	for _, e := range v.List[3:] {
+		if e.List[0].Head() == "s" {
+			if _, ok := set[e.List[0].List[2].Str]; ok {
+				continue
+			}
+		}
+		out.Append(e)
+	}
+	var names []string
+	for k := range set {
+		names = append(names, k)
+	}
+	sort.Strings(names)
+	for _, k := range names {
+		out.Append(sx.L(vS(k), set[k]))
+	}
+	return out
 }
 
 func (g *xgen) object(id string, ptr bool, structName string) *sx.Node {
@@ -743,6 +837,26 @@ func xFixed() []struct {
 		propD{name: "a", t: dInt(nil, nil, nil), conflicts: []string{"b"}}, propD{name: "b", t: dInt(nil, nil, nil)})
 	out = append(out, cfg{d44, []*sx.Node{op("rt", m(vS("b"), vI("i64", 1))), op("rt", m(vS("a"), vI("i64", 1))), op("rt", m()), op("x", m(vS("b"), vI("i64", 1))),
 		op("v", nat(XTwo{B: 1})), op("s", nat(XTwo{A: 1})), op("ty", m(vS("b"), vI("i64", 1)))}})
+	// D86: treat-empty-as-default AND a declared default: an explicitly supplied EMPTY value is kept by Unserialize, dropped by
+	// Serialize (empty = default) and comes back as the default (Properties/C01.v C01_struct_roundtrip_emptydefault_refuted)
+	d86 := dXObject("Root", false, "XInner", false, propD{name: "a", t: dInt(nil, nil, nil), dflt: sp("1"), emptyIsDefault: true})
+	out = append(out, cfg{d86, []*sx.Node{op("rt", m(vS("a"), vI("i64", 0)))}})
+	out = append(out, cfg{d86, []*sx.Node{op("rt", m()), op("rt", m(vS("a"), vI("i64", 2))), op("rt", m(vS("a"), vI("i64", 1))), op("x", m(vS("a"), vI("i64", 0))), op("ty", m(vS("a"), vI("i64", 0))),
+		op("v", nat(XInner{})), op("s", nat(XInner{})), op("sr", nat(XInner{})), op("v", nat(XInner{A: 1})), op("s", nat(XInner{A: 1})), op("c", nat(XInner{}))}})
+	d86s := dXObject("Root", false, "XScalars", false,
+		propD{name: "s", t: dString(nil, nil, nil), dflt: sp("\"abc\""), emptyIsDefault: true},
+		propD{name: "b", t: dBool(), dflt: sp("true"), emptyIsDefault: true},
+		propD{name: "f", t: dFloat(nil, nil, nil), dflt: sp("5.5"), emptyIsDefault: true},
+		propD{name: "i", t: dInt(nil, nil, nil), dflt: sp("0"), emptyIsDefault: true})
+	out = append(out, cfg{d86s, []*sx.Node{op("rt", m(vS("s"), vS(""))), op("rt", m(vS("b"), vB(false))), op("rt", m(vS("f"), vF("f64", 0))), op("rt", m(vS("i"), vI("i64", 0))),
+		op("rt", m(vS("s"), vS(""), vS("b"), vB(false), vS("i"), vI("i64", 3))), op("rt", m()), op("x", m(vS("b"), vB(false))), op("v", nat(XScalars{})), op("s", nat(XScalars{}))}})
+	d86p := dXObject("Root", false, "XPtrs", true,
+		propD{name: "i", t: dInt(nil, nil, nil), dflt: sp("5"), emptyIsDefault: true}, propD{name: "s", t: dString(nil, nil, nil), dflt: sp("\"abc\""), emptyIsDefault: true})
+	out = append(out, cfg{d86p, []*sx.Node{op("rt", m(vS("i"), vI("i64", 0))), op("rt", m(vS("s"), vS(""))), op("rt", m()), op("rt", m(vS("i"), vI("i64", 5)))}})
+	d86l := dXObject("Root", false, "XColl", false,
+		propD{name: "l", t: dList(dString(nil, nil, nil), nil, nil), dflt: sp("[\"x\"]"), emptyIsDefault: true},
+		propD{name: "ls", t: dList(dXObject("XInner", false, "XInner", false, propD{name: "a", t: dInt(nil, nil, nil), dflt: sp("1"), emptyIsDefault: true}), nil, nil)})
+	out = append(out, cfg{d86l, []*sx.Node{op("rt", m(vS("l"), vSl(tAnySlice))), op("rt", m(vS("ls"), vSl(tAnySlice, m(vS("a"), vI("i64", 0)), m(vS("a"), vI("i64", 4))))), op("rt", m())}})
 	d44b := dXObject("Root", false, "XInner", false, propD{name: "a", t: dInt(ip(1), nil, nil)}, propD{name: "b", t: dString(nil, nil, nil), required: true})
 	out = append(out, cfg{d44b, []*sx.Node{op("rt", m(vS("b"), vS("x"))), op("rt", m(vS("a"), vI("i64", 1), vS("b"), vS("x")))}})
 	// an object-typed property whose default is not a JSON object (inline shorthand of a one-property member)
@@ -838,6 +952,15 @@ func init() {
 					if r.Chance(60) {
 						mv := mutate(r, v)
 						ops = append(ops, op("rt", mv), op("x", mv), op("c", mv))
+					}
+					if j < 2 { // D86: the treat-empty-as-default properties with a declared default supplied EMPTY
+						ro := er
+						if ro.Head() == "scope" {
+							ro = sc[ro.List[2].Str]
+						}
+						if ev := withEmptyDefaults(ro, v); ev != nil {
+							ops = append(ops, op("rt", ev), op("x", ev))
+						}
 					}
 				}
 				xn := &xnat{r: r, sc: scopeCtx{}}
